@@ -260,6 +260,14 @@ func truncScenario(c *Ctx, sh truncShape) {
 		t := w.NewTrx(w.wallets[4], w.wallets[1].Address(), spice.Melange{Currency: 10}, nil)
 		w.Propose(a, &t)
 	}
+	// ---- the same checkpointed funds cannot be spent a second time: the amount is covered by the checkpoint
+	// alone, but not by checkpoint minus what was spent since (live vertices)
+	for k := 0; k < 2; k++ {
+		t := w.NewTrx(w.wallets[4], w.wallets[2].Address(), spice.Melange{Currency: 10 - uint64(3*k)}, nil)
+		w.Propose(a, &t) // becomes a tentative tip
+		t2 := w.NewTrx(w.wallets[0], w.wallets[1].Address(), spice.Melange{SupplementaryCurrency: 3}, nil)
+		w.Propose(a, &t2) // validates the tips it builds on: the overdrawing one must be dropped
+	}
 	// ---- later transfers are validated against the same funds
 	for i := 0; i < 24; i++ {
 		iss := w.wallets[i%4]
